@@ -143,7 +143,10 @@ func (r *RootAssertionNode) GetDeclaringIdent(obj types.Object) *ast.Ident {
 
 func (r *RootAssertionNode) computeDeclaringIdent(obj types.Object) *ast.Ident {
 	if path, ok := GetDeclaringPath(r.Pass(), obj.Pos(), obj.Pos()); ok && len(path) > 0 {
-		if ident, ok := path[0].(*ast.Ident); ok && ident.Name == obj.Name() {
+		// The identifier at the declaring position need not resolve to the object: the symbolic variable of a type
+		// switch (`switch x := v.(type)`) is declared implicitly in every clause, and the `x` of the header has no
+		// object at all. In that case we fall through to a fake identifier that can be looked up.
+		if ident, ok := path[0].(*ast.Ident); ok && ident.Name == obj.Name() && r.Pass().TypesInfo.ObjectOf(ident) == obj {
 			return ident
 		}
 		// In case the declaration is package.ident
